@@ -3,7 +3,7 @@
    equality tests.  Operands: b at positions 0..7, a at positions 8..15, most significant limb first. *)
 From Coq Require Import ZArith List Bool Arith Lia String.
 From MV Require Import Base.Field Core.Op Core.Rpo Vm.Pure Vm.PureProps Gen.AsmGen Gen.StdGen Asm.Instr
-  Asm.SpecDefs Asm.StackInstr Asm.FieldInstr Asm.U32Instr Asm.U64Instr Asm.U64More.
+  Asm.SpecDefs Asm.StackInstr Asm.FieldInstr Asm.U32Instr Asm.U64Instr Asm.U64More Asm.MoreInstr.
 Import ListNotations.
 Open Scope Z_scope.
 
@@ -169,3 +169,59 @@ Proof. flags_proof. Qed.
 Theorem u256_eq : instr_spec_g (std_ops_of "u256::eq_unsafe") 16 (fun _ => true) no_pre
   (fun xs => [bool01 (forallb (fun k => nz xs k =? nz xs (8 + k))%Z (seq 0 8))]).
 Proof. flags_proof. Qed.
+
+(* ---- subtraction modulo 2^256: borrow chain over eight limbs ---------------------------------------- *)
+Lemma borrow_div a b : 0 <= a < TWO32 -> 0 <= b < TWO32 ->
+  Z.shiftr (wrap64 (a - b)) 63 = - ((a - b) / TWO32).
+Proof.
+  intros Ha Hb. rewrite borrow_bit by lia. unfold TWO32 in *.
+  destruct (Z.ltb_spec a b); Z.div_mod_to_equations; nia.
+Qed.
+
+Ltac pure t :=
+  lazymatch t with
+  | context [fadd _ _] => fail
+  | context [hi32 _] => fail
+  | context [lo32 _] => fail
+  | context [wrap64 _] => fail
+  | context [Z.shiftr _ _] => fail
+  | context [_ / _] => fail
+  | context [_ mod _] => fail
+  | _ => idtac
+  end.
+Ltac nm t :=
+  let q := fresh "q" in let r := fresh "r" in
+  let E := fresh "E" in let B := fresh "B" in
+  destruct (div_mod32 t) as [E B];
+  set (q := t / TWO32) in *; set (r := t mod TWO32) in *; clearbody q r.
+Ltac tb := unfold TWO32 in *; lia.
+Ltac norm_u32_step :=
+  match goal with
+  | |- context [fadd ?a ?b] => pure a; pure b; rewrite (fadd_small a b) by tb
+  | |- context [lo32 (wrap64 (?a - ?b))] => pure a; pure b;
+      rewrite ?(lo_sub a b), ?(borrow_div a b) by tb; nm (a - b)
+  | |- context [Z.shiftr (wrap64 (?a - ?b)) 63] => pure a; pure b;
+      rewrite ?(lo_sub a b), ?(borrow_div a b) by tb; nm (a - b)
+  | |- context [hi32 ?x] => pure x; rewrite ?(hi32_div x), ?(lo32_mod x); nm x
+  | |- context [lo32 ?x] => pure x; rewrite ?(hi32_div x), ?(lo32_mod x); nm x
+  end.
+
+Theorem u256_sub : instr_spec_g (std_ops_of "u256::sub_unsafe") 16 g16 no_pre
+  (fun xs => limbs256 ((V256 xs 8 - V256 xs 0) mod 2 ^ 256)).
+Proof.
+  norm_std; apply instr_by_view_g; [vm_compute; reflexivity|].
+  intros l Hl Hc Hg; d16 l Hl; canon16 Hc.
+  cbv [g16 forallb firstn] in Hg; guard_facts.
+  split_ifs; run_view2; try kill_const.
+  eexists; split; [reflexivity|]. cbv [V256 nz]. cbn [nth Nat.add firstn].
+  repeat norm_u32_step.
+  match goal with
+  | Es : ?x - ?rt = TWO32 * ?qs + ?a7, Et : _ = TWO32 * ?qt + ?rt
+    |- stack_eq (?a7 :: ?a6 :: ?a5 :: ?a4 :: ?a3 :: ?a2 :: ?a1 :: ?a0 :: _) _ =>
+      replace (val [z14; z13; z12; z11; z10; z9; z8; z7] - val [z6; z5; z4; z3; z2; z1; z0; z])
+        with (val [a0; a1; a2; a3; a4; a5; a6; a7] + (qs - qt) * 2 ^ 256)
+        by (cbn [val]; change (2 ^ 256) with (TWO32 * TWO32 * TWO32 * TWO32 * TWO32 * TWO32 * TWO32 * TWO32); unfold TWO32 in *; lia);
+      rewrite limbs256_val by (unfold limb; assumption)
+  end.
+  cbn [app]. repeat (apply stack_eq_cons; [reflexivity|]). apply stack_eq_tail3.
+Qed.
